@@ -21,6 +21,8 @@ type ProcMachine struct {
 	Bin, Dir, DBPath, Password string
 	P                          *PtyProc
 	Starts                     int
+	// Expiry is the -password_expiration the binary is started with ("" = 24h)
+	Expiry string
 	Commands                   map[string]int
 }
 
@@ -41,7 +43,11 @@ func (m *ProcMachine) Start() error {
 	if err := os.MkdirAll(m.Dir, 0o755); err != nil {
 		return err
 	}
-	p, err := StartPty(m.Bin, "-db_path", m.DBPath, "-result_folder", m.Dir, "-password_expiration", "24h")
+	expiry := m.Expiry
+	if expiry == "" {
+		expiry = "24h"
+	}
+	p, err := StartPty(m.Bin, "-db_path", m.DBPath, "-result_folder", m.Dir, "-password_expiration", expiry)
 	if err != nil {
 		return err
 	}
@@ -84,6 +90,42 @@ func (m *ProcMachine) command(name string, answers ...string) (string, error) {
 	out, err := m.P.Expect(ptyWait, ">>> ")
 	all.WriteString(out)
 	return all.String(), err
+}
+
+// SetSeedByPrompt runs set_seed answering whatever the machine asks by what it asks (the password first if
+// the machine wants it again, then the confirmation and the mnemonic). It reports whether the password was
+// asked for.
+func (m *ProcMachine) SetSeedByPrompt(mnemonic string) (askedPassword bool, err error) {
+	m.Commands["set_seed"]++
+	if m.P == nil || !m.P.Alive() {
+		return false, fmt.Errorf("machine process is not running")
+	}
+	_ = m.P.Send("set_seed\r")
+	var all strings.Builder
+	for i := 0; i < 12; i++ {
+		out, err := m.P.Expect(ptyWait, ": ", ">>> ")
+		all.WriteString(out)
+		if err != nil {
+			return askedPassword, err
+		}
+		switch {
+		case strings.HasSuffix(out, ">>> "):
+			if strings.Contains(all.String(), "failed to execute command") {
+				return askedPassword, fmt.Errorf("set_seed: %s", trimTail(all.String(), 300))
+			}
+			return askedPassword, nil
+		case strings.Contains(out, "ncryption password"):
+			askedPassword = true
+			_ = m.P.Send(m.Password + "\n")
+		case strings.Contains(out, "Type 'ok'"):
+			_ = m.P.Send("ok\n")
+		case strings.Contains(out, "mnemonic"):
+			_ = m.P.Send(mnemonic + "\n")
+		default:
+			_ = m.P.Send("\n")
+		}
+	}
+	return askedPassword, fmt.Errorf("set_seed: too many questions: %s", trimTail(all.String(), 300))
 }
 
 // SetSeed runs set_seed with a BIP-39 mnemonic (fresh database only).
